@@ -29,8 +29,10 @@ VERIF = Path(__file__).resolve().parents[1]
 REPO = Path(os.environ.get("REDUINO_REPO", "/repo"))
 COQ = VERIF / "coq"
 BUILD = VERIF / "build"
-EVID = VERIF / "evidence"
-REPLAYS = BUILD / "replays"
+# evidence/ describes runs against /repo itself; a run against a scratch copy (REDUINO_REPO=..., used to try
+# the checks on seeded changes) must not overwrite it
+EVID = VERIF / "evidence" if str(REPO) == "/repo" else BUILD / "evidence-scratch"
+REPLAYS = BUILD / "replays" if str(REPO) == "/repo" else BUILD / "replays-scratch"
 PY = "/venv/bin/python"
 NPROC = os.cpu_count() or 4
 
@@ -221,6 +223,26 @@ def check_props_file(prop_id: str):
     return {"ok": rc == 0 and len(pa_names) >= 1 and all(n in axioms for n in pa_names),
             "theorems": theorems, "log": out[-4000:], "failed_line": failed_line,
             "unprinted": [n for n in names if n not in pa_names and n.split(".")[-1] not in pa_names]}
+
+
+def run_coqchk(units, timeout=2400):
+    """Independent re-check of the compiled property files and everything they depend on (thorough tier).
+    Returns dict(ok, axioms=[...], summary=text)."""
+    mods = [f"RV.Props.{u}" for u in units]
+    rc, out = sh(["timeout", str(timeout), "coqchk", "-silent", "-o", "-Q", ".", "RV"] + mods, cwd=COQ, timeout=timeout + 30)
+    summ = out[out.find("CONTEXT SUMMARY"):] if "CONTEXT SUMMARY" in out else out[-1500:]
+    axioms, cur = [], None
+    for line in summ.splitlines():
+        if line.startswith("* "):
+            cur = line[2:].split(":")[0]
+            rest = line.split(":", 1)[1].strip() if ":" in line else ""
+            if cur == "Axioms" and rest and rest != "<none>":
+                axioms.append(rest)
+        elif cur == "Axioms" and line.strip():
+            axioms.append(line.strip())
+    bad = [k for k in ("type-in-type", "unsafe (co)fixpoints", "positivity is assumed")
+           if re.search(re.escape(k) + r"[^\n]*:\s*(?!<none>)\S", summ)]
+    return {"ok": rc == 0 and not bad, "rc": rc, "axioms": axioms, "unsafe": bad, "summary": summ[-1200:]}
 
 
 # --------------------------------------------------------------------------
@@ -448,6 +470,12 @@ class Ctx:
                     allres["ok"] = False
                     bad_t = [t["name"] for t in res["theorems"] if not t["accepted"]]
                     allres.setdefault("what", f"Props/{u}.v no longer checks (line {res.get('failed_line')}; first unaccepted: {bad_t[:1]})")
+            if allres["ok"] and self.tier == "thorough" and os.environ.get("VERIF_NO_COQCHK") != "1":
+                chk = run_coqchk(self.units)
+                allres["coqchk"] = chk
+                if not chk["ok"]:
+                    allres["ok"] = False
+                    allres["what"] = "coqchk rejected the compiled property files: " + chk["summary"][-300:]
             self.proof = allres
             for u in wire_units:
                 self.exes[u] = build_model(u)
@@ -475,7 +503,7 @@ class Ctx:
     # ---- verdict
     def finish(self, level="proof"):
         REPLAYS.mkdir(parents=True, exist_ok=True)
-        EVID.mkdir(exist_ok=True)
+        EVID.mkdir(parents=True, exist_ok=True)
         out_lines = []
         violations = 0
         for l in self.known_lines:
@@ -515,6 +543,9 @@ class Ctx:
             "checker_cmd": "cd /verif/coq && make " + " ".join(f"Props/{u}.vo" for u in self.units) + " && coqc -Q . RV Props/<unit>.v   (full .vo build, Coq 8.16.1 kernel; Print Assumptions after every theorem)",
             "theorems": [{"name": t["name"], "accepted": t["accepted"], "axioms": t["axioms"]} for t in thms],
             "proof_stage": self.proof.get("stage"),
+            "coqchk": ({"ok": self.proof["coqchk"]["ok"], "axioms_of_loaded_libraries": self.proof["coqchk"]["axioms"],
+                        "cmd": "coqchk -silent -o -Q . RV " + " ".join(f"RV.Props.{u}" for u in self.units)}
+                       if self.proof.get("coqchk") else "thorough tier only"),
             "correspondence_disagreements": len(self.tie_broken),
             "oracle_failures": len(self.failures),
             "known_findings_replayed": self.known_lines,
